@@ -10,14 +10,14 @@ namespace Ioflo.Need
 /-! ## `==` and `!=` -/
 
 /-- on numbers (bools count as 0/1) `==` means `goal − |tol| ≤ state ≤ goal + |tol|` -/
-theorem C21_check_eq_numbers (state goal tol : PyVal) (s g t : Rat)
+theorem C21_check_eq_numbers (state goal tol : PyVal Rat) (s g t : Rat)
     (hs : state.toNum? = some s) (hg : goal.toNum? = some g) (ht : tol.toNum? = some t) :
     check state .eq goal tol = .ok (decide (g - qabs t ≤ s ∧ s ≤ g + qabs t)) := by
   simp only [check, window?, hs, hg, ht]
   by_cases h : g - qabs t ≤ s <;> simp [h]
 
 /-- the same window as a distance: `|state − goal| ≤ |tol|` -/
-theorem C21_check_eq_distance (state goal tol : PyVal) (s g t : Rat)
+theorem C21_check_eq_distance (state goal tol : PyVal Rat) (s g t : Rat)
     (hs : state.toNum? = some s) (hg : goal.toNum? = some g) (ht : tol.toNum? = some t) :
     check state .eq goal tol = .ok (decide (qabs (s - g) ≤ qabs t)) := by
   rw [C21_check_eq_numbers state goal tol s g t hs hg ht]
@@ -26,7 +26,7 @@ theorem C21_check_eq_distance (state goal tol : PyVal) (s g t : Rat)
   unfold qabs; grind
 
 /-- zero tolerance on numbers is equality of values -/
-theorem C21_check_eq_zero_tolerance (state goal : PyVal) (s g : Rat)
+theorem C21_check_eq_zero_tolerance (state goal : PyVal Rat) (s g : Rat)
     (hs : state.toNum? = some s) (hg : goal.toNum? = some g) :
     check state .eq goal (.num 0) = .ok (decide (s = g)) := by
   rw [C21_check_eq_numbers state goal (.num 0) s g 0 hs hg rfl]
@@ -35,7 +35,7 @@ theorem C21_check_eq_zero_tolerance (state goal : PyVal) (s g : Rat)
   unfold qabs; grind
 
 /-- when the window raises `TypeError` (a string or `None` anywhere) `==` is Python equality -/
-theorem C21_check_eq_otherwise (state goal tol : PyVal)
+theorem C21_check_eq_otherwise (state goal tol : PyVal Rat)
     (h : state.toNum? = none ∨ goal.toNum? = none ∨ tol.toNum? = none) :
     check state .eq goal tol = .ok (pyEq goal state) := by
   have : window? state goal tol = none := by
@@ -52,24 +52,24 @@ theorem C21_check_eq_otherwise (state goal tol : PyVal)
   simp only [check, this]
 
 /-- Python equality on these values: identical, or numerically equal (`True == 1`, `1 == 1.0`) -/
-theorem C21_pyEq_iff (a b : PyVal) :
+theorem C21_pyEq_iff (a b : PyVal Rat) :
     pyEq a b = true ↔ (a = b ∨ ∃ x, a.toNum? = some x ∧ b.toNum? = some x) := by
   cases a <;> cases b <;> simp [pyEq, PyVal.toNum?] <;> grind
 
 /-- strings: `==` is string equality whatever the tolerance -/
-theorem C21_check_eq_strings (a b : List Nat) (tol : PyVal) :
+theorem C21_check_eq_strings (a b : List Nat) (tol : PyVal Rat) :
     check (.str a) .eq (.str b) tol = .ok (decide (b = a)) := by
   rw [C21_check_eq_otherwise _ _ _ (Or.inl rfl)]
   simp [pyEq]
 
 /-- `!=` is the complement of `==`, for all values -/
-theorem C21_check_ne_complement (state goal tol : PyVal) :
+theorem C21_check_ne_complement (state goal tol : PyVal Rat) :
     check state .ne goal tol = (check state .eq goal tol).map (! ·) := by
   simp only [check]
   cases window? state goal tol <;> rfl
 
 /-- `==`/`!=` never raise -/
-theorem C21_check_eq_ne_total (state goal tol : PyVal) :
+theorem C21_check_eq_ne_total (state goal tol : PyVal Rat) :
     (∃ r, check state .eq goal tol = .ok r) ∧ (∃ r, check state .ne goal tol = .ok r) := by
   simp only [check]
   cases window? state goal tol <;> exact ⟨⟨_, rfl⟩, ⟨_, rfl⟩⟩
@@ -77,7 +77,7 @@ theorem C21_check_eq_ne_total (state goal tol : PyVal) :
 /-! ## ordering operators -/
 
 /-- numbers: the written comparison of state with goal -/
-theorem C21_check_order_numbers (state goal tol : PyVal) (s g : Rat)
+theorem C21_check_order_numbers (state goal tol : PyVal Rat) (s g : Rat)
     (hs : state.toNum? = some s) (hg : goal.toNum? = some g) :
     check state .lt goal tol = .ok (decide (s < g)) ∧
     check state .le goal tol = .ok (decide (s ≤ g)) ∧
@@ -104,7 +104,7 @@ theorem lexLt_iff (a b : List Nat) : lexLt a b = true ↔ a < b := by
           simp [this, ih]
 
 /-- strings: lexicographic by code point -/
-theorem C21_check_order_strings (a b : List Nat) (tol : PyVal) :
+theorem C21_check_order_strings (a b : List Nat) (tol : PyVal Rat) :
     check (.str a) .lt (.str b) tol = .ok (decide (a < b)) ∧
     check (.str a) .le (.str b) tol = .ok (decide (¬ b < a)) ∧
     check (.str a) .ge (.str b) tol = .ok (decide (¬ a < b)) ∧
@@ -115,38 +115,38 @@ theorem C21_check_order_strings (a b : List Nat) (tol : PyVal) :
   refine ⟨?_, ?_, ?_, ?_⟩ <;> congr 1 <;> grind
 
 /-- what Python can order: two numbers or two strings -/
-def Comparable (a b : PyVal) : Prop :=
+def Comparable (a b : PyVal Rat) : Prop :=
   (a.toNum?.isSome ∧ b.toNum?.isSome) ∨ (∃ x y, a = .str x ∧ b = .str y)
 
 /-- everything else (`None` anywhere, a string against a number) raises `TypeError` -/
-theorem C21_check_order_type_error (state goal tol : PyVal) (c : Cmp)
+theorem C21_check_order_type_error (state goal tol : PyVal Rat) (c : Cmp)
     (hc : c = .lt ∨ c = .le ∨ c = .ge ∨ c = .gt) :
     check state c goal tol = .error .typeError ↔ ¬ Comparable state goal := by
   rcases hc with rfl | rfl | rfl | rfl <;>
     cases state <;> cases goal <;> simp [check, pyLt?, pyLe?, PyVal.toNum?, Comparable]
 
 /-- the tolerance plays no role in the ordering operators -/
-theorem C21_check_order_ignores_tolerance (state goal tol tol' : PyVal) (c : Cmp)
+theorem C21_check_order_ignores_tolerance (state goal tol tol' : PyVal Rat) (c : Cmp)
     (hc : c = .lt ∨ c = .le ∨ c = .ge ∨ c = .gt) :
     check state c goal tol = check state c goal tol' := by
   rcases hc with rfl | rfl | rfl | rfl <;> rfl
 
 /-- `>=` / `>` are `<=` / `<` with the operands swapped -/
-theorem C21_check_ge_gt_swap (state goal tol : PyVal) :
+theorem C21_check_ge_gt_swap (state goal tol : PyVal Rat) :
     check state .ge goal tol = check goal .le state tol ∧
     check state .gt goal tol = check goal .lt state tol := ⟨rfl, rfl⟩
 
 /-- an unknown comparison string is false -/
-theorem C21_check_unknown_false (state goal tol : PyVal) : check state .other goal tol = .ok false := rfl
+theorem C21_check_unknown_false (state goal tol : PyVal Rat) : check state .other goal tol = .ok false := rfl
 
 /-! ## bare `if state`, `not`, `and` -/
 
 /-- a bare `if state` is the truthiness of the field -/
-theorem C21_boolean_need_truthiness (e : Env) (k : Nat) :
+theorem C21_boolean_need_truthiness (e : Env Rat) (k : Nat) :
     (Need.boolean k).eval e = .ok (truthy (e.get k)) := rfl
 
 /-- Python truthiness of these values -/
-theorem C21_truthy_iff (v : PyVal) :
+theorem C21_truthy_iff (v : PyVal Rat) :
     truthy v = false ↔ (v = .none ∨ v = .bool false ∨ v = .num 0 ∨ v = .str []) := by
   cases v with
   | none => simp [truthy]
@@ -155,18 +155,18 @@ theorem C21_truthy_iff (v : PyVal) :
   | str s => cases s <;> simp [truthy]
 
 /-- an indirect goal is the direct goal with the other share's current value -/
-theorem C21_indirect_is_direct (e : Env) (k j : Nat) (c : Cmp) (tol : PyVal) :
+theorem C21_indirect_is_direct (e : Env Rat) (k j : Nat) (c : Cmp) (tol : PyVal Rat) :
     (Need.compare k c (.ref j) tol).eval e = (Need.compare k c (.lit (e.get j)) tol).eval e := rfl
 
 /-- `not need` negates the result and passes a `TypeError` on -/
-theorem C21_nact_negates (e : Env) (n : Need) :
-    Clause.eval e { negate := true, need := n } =
-      (Clause.eval e { negate := false, need := n }).map (! ·) := by
+theorem C21_nact_negates (e : Env Rat) (n : Need Rat) :
+    Clause.eval e ({ negate := true, need := n } : Clause Rat) =
+      (Clause.eval e ({ negate := false, need := n } : Clause Rat)).map (! ·) := by
   simp only [Clause.eval]
   cases n.eval e <;> rfl
 
 /-- a list of needs is their conjunction … -/
-theorem C21_conj_all (e : Env) (cs : List Clause) :
+theorem C21_conj_all (e : Env Rat) (cs : List (Clause Rat)) :
     evalAll e cs = .ok true ↔ ∀ c ∈ cs, c.eval e = .ok true := by
   induction cs with
   | nil => simp [evalAll]
@@ -178,7 +178,7 @@ theorem C21_conj_all (e : Env) (cs : List Clause) :
 
 /-- … evaluated left to right, stopping at the first false (needs after it are not evaluated,
 whatever they would do) … -/
-theorem C21_conj_first_false (e : Env) (cs : List Clause) :
+theorem C21_conj_first_false (e : Env Rat) (cs : List (Clause Rat)) :
     evalAll e cs = .ok false ↔
       ∃ pre c post, cs = pre ++ c :: post ∧ (∀ d ∈ pre, d.eval e = .ok true) ∧ c.eval e = .ok false := by
   induction cs with
@@ -213,7 +213,7 @@ theorem C21_conj_first_false (e : Env) (cs : List Clause) :
             exact ⟨ps, d, post, hcs.2, fun x hx => hpre x (by simp [hx]), hd⟩
 
 /-- … and an error is the error of the first need that is reached and raises -/
-theorem C21_conj_error (e : Env) (cs : List Clause) (x : Err) :
+theorem C21_conj_error (e : Env Rat) (cs : List (Clause Rat)) (x : Err) :
     evalAll e cs = .error x ↔
       ∃ pre c post, cs = pre ++ c :: post ∧ (∀ d ∈ pre, d.eval e = .ok true) ∧ c.eval e = .error x := by
   induction cs with
@@ -254,7 +254,7 @@ theorem C21_conj_error (e : Env) (cs : List Clause) (x : Err) :
 
 /-! ## a frame re-evaluating its transition on the framer clocks -/
 
-theorem runFrom_hit_iff (period : Rat) (e : Env) (cs : List Clause) (fuel j0 j : Nat) :
+theorem runFrom_hit_iff (period : Rat) (e : Env Rat) (cs : List (Clause Rat)) (fuel j0 j : Nat) :
     runFrom period e cs fuel j0 = .hit j ↔
       (j0 ≤ j ∧ j < j0 + fuel ∧ evalAll (envAt period e j) cs = .ok true ∧
         ∀ i, j0 ≤ i → i < j → evalAll (envAt period e i) cs = .ok false) := by
@@ -295,7 +295,7 @@ theorem runFrom_hit_iff (period : Rat) (e : Env) (cs : List Clause) (fuel j0 j :
 /-- **transition taken or not**: the transition fires at evaluation `j` exactly when its needs hold
 on the clocks of evaluation `j` (`elapsed = j·period`, `recurred = j`) and were false at every
 earlier evaluation -/
-theorem C21_frame_hit_iff (period : Rat) (limit : Nat) (e : Env) (cs : List Clause) (j : Nat) :
+theorem C21_frame_hit_iff (period : Rat) (limit : Nat) (e : Env Rat) (cs : List (Clause Rat)) (j : Nat) :
     runFrame period limit e cs = .hit j ↔
       (1 ≤ j ∧ j ≤ limit ∧ evalAll (envAt period e j) cs = .ok true ∧
         ∀ i, 1 ≤ i → i < j → evalAll (envAt period e i) cs = .ok false) := by
@@ -304,13 +304,40 @@ theorem C21_frame_hit_iff (period : Rat) (limit : Nat) (e : Env) (cs : List Clau
 
 /-- non-vacuity: `go … if elapsed >= 1/4 and not .s == "bye"` with period 1/8 fires at the 2nd
 evaluation -/
-example : runFrame (1/8) 6 [(7, .str [104, 105])]
+example : runFrame (1/8 : Rat) 6 [(7, .str [104, 105])]
     [⟨false, .compare 0 .ge (.lit (.num (1/4))) (.num 0)⟩,
      ⟨true, .compare 7 .eq (.lit (.str [98, 121, 101])) (.num 0)⟩] = .hit 2 := by decide +kernel
 
+/-- the clocks of the `j`-th evaluation are `j·period` and `j` -/
+theorem C21_clocks (period : Rat) (e : Env Rat) (j : Nat) :
+    (envAt period e j).get 0 = .num (period * (j : Rat)) ∧ (envAt period e j).get 1 = .num (j : Rat) := by
+  have h : ∀ n : Nat, (natTo n : Rat) = (n : Rat) := by
+    intro n
+    induction n with
+    | zero => simp [natTo]
+    | succ k ih => simp only [natTo, ih]; grind
+  simp [envAt, Env.get, List.lookup, h]
+
+/-- an entry guard in front of the frame: blocked iff the guard is false, otherwise the transition's
+needs decide; errors of the guard come first -/
+theorem C21_guarded (e : Env Rat) (guard cs : List (Clause Rat)) :
+    (runGuarded e guard cs = .blocked ↔ evalAll e guard = .ok false) ∧
+    (runGuarded e guard cs = .hit ↔ evalAll e guard = .ok true ∧ evalAll e cs = .ok true) ∧
+    (runGuarded e guard cs = .miss ↔ evalAll e guard = .ok true ∧ evalAll e cs = .ok false) := by
+  unfold runGuarded
+  cases hg : evalAll e guard with
+  | error x => simp
+  | ok b =>
+    cases b with
+    | false => simp
+    | true =>
+      cases hc : evalAll e cs with
+      | error x => simp
+      | ok c => cases c <;> simp
+
 /-- non-vacuity for the error clauses: `"hi" < 3` raises, `not ("hi" == 3)` is true -/
-example : check (.str [104, 105]) .lt (.num 3) (.num 0) = .error .typeError ∧
-    Clause.eval [] ⟨true, .compare 7 .eq (.lit (.str [104])) (.num 0)⟩ = .ok true := by
+example : check (.str [104, 105]) .lt (.num (3 : Rat)) (.num 0) = .error .typeError ∧
+    Clause.eval ([] : Env Rat) ⟨true, .compare 7 .eq (.lit (.str [104])) (.num 0)⟩ = .ok true := by
   constructor <;> rfl
 
 end Ioflo.Need
